@@ -213,7 +213,11 @@ def argv_strategy(draw, big=False):
             add(k, [num(1.0), num(1e-6), num(1e-10)])
         else:
             add('--laplace-load-a', [num(1.0)] + ([num(1e-7)] if draw(st.booleans()) else []))
-            if draw(st.integers(0, 5)) > 0:
+            if contra and draw(st.integers(0, 7)) == 0:
+                # a long coefficient list: the powers of s reach beyond the range of a float
+                nco = draw(st.sampled_from([30, 45, 54, 70]))
+                add('--laplace-load-b', [num(1.0)] + [num(0.0) for _ in range(nco - 2)] + [num(draw(st.sampled_from([0.0, 1e-300, 1.0])))])
+            elif draw(st.integers(0, 5)) > 0:
                 add('--laplace-load-b', [num(5.0), num(1e-6)] + ([num(1e-13)] if draw(st.booleans()) else []))
         nld += 1
         for j in range(draw(st.sampled_from([0, 1, 1, 2] if contra else [1, 1, 2]))):
@@ -253,9 +257,11 @@ def argv_strategy(draw, big=False):
     if draw(st.integers(0, 6)) == 0:
         add('--nf-power', [num(draw(st.sampled_from([100.0, 1e-3])))])
     if draw(st.integers(0, 7)) == 0:
-        add('--frequency-steps', [num(str(draw(st.integers(1, 3))), 'n')])
+        nst = draw(st.integers(1, 3))
+        add('--frequency-steps', [num(str(nst), 'n')])
         if draw(st.integers(0, 3)) > 0:
-            add('--frequency-increment', [num(draw(st.sampled_from([0.5, 1.0, -0.1])))])
+            # (downward sweeps may end exactly at 0 MHz or cross it)
+            add('--frequency-increment', [num(draw(st.sampled_from([0.5, 1.0, -0.1, -f, -f / 2, -f / max(1, nst - 1), -2 * f])))])
     outfiles = []
     if draw(st.integers(0, 7)) == 0:
         outfiles.append('--output-cmdline')
